@@ -432,7 +432,9 @@ def observe_release(trace):
                     'registered': st.fd in w.by_fd and not st.closed})
     polls_alive = sum(1 for r in w.polls if r() is not None)
     trace.release = {'socks': rel, 'polls_alive': polls_alive,
-                     'polls_created': w.n_polls_created}
+                     'polls_created': w.n_polls_created,
+                     'selectors_created': w.sel_created,
+                     'selectors_closed': w.sel_closed}
 
 
 _RUNS = [0]
